@@ -432,9 +432,9 @@ func (w *c54World) abort(n int, body []byte) bool {
 	}
 	midBody := bytes.Contains(got, []byte("\r\n\r\n"))
 	c.Close() // the client is gone
-	time.Sleep(30 * time.Millisecond)
+	time.Sleep(15 * time.Millisecond)
 	close(sc.Hold)
-	time.Sleep(20 * time.Millisecond)
+	time.Sleep(10 * time.Millisecond)
 	return midBody
 }
 
@@ -571,7 +571,7 @@ func TestC54(t *testing.T) {
 			rule.Cond = "default_t()"
 			k := rapid.IntRange(3, 8).Draw(rt, "burst-clients")
 			sizes := rapid.SliceOfN(rapid.IntRange(0, 60000), k, k).Draw(rt, "burst-sizes")
-			aborts := rapid.SampledFrom([]int{0, 1, 2, 3}).Draw(rt, "burst-aborts-first")
+			aborts := rapid.SampledFrom([]int{0, 0, 1, 2}).Draw(rt, "burst-aborts-first")
 			burst(rt, mkBurst(rule, k, func(i int) int { return sizes[i] }, byte(rapid.IntRange(0, 255).Draw(rt, "burst-seed"))), aborts)
 			return
 		}
